@@ -10,11 +10,15 @@ Tie: T-diff, five streams + two witness streams:
   routes    real route.BuildHTTPRoutesForVirtualService, canonicalised, vs the Lean compiler (structural) + requests
   requests  Go reference Envoy interpreter on the real routes vs the Lean source semantics vsSpec
   vhosts    real generateVirtualHostDomains / dedupeDomains / selectVirtualServices (hook), MostSpecificHostMatch, SortVHostRoutes
-  rds       end to end: real ConfigGenerator.BuildHTTPRoutes with a real XdsCache for several sidecars per case (Sidecar
-            resources, colliding names, duplicate VirtualService hosts, host:port authorities): virtual-host TABLE
-            (+ IgnorePortInHostMatching) and decisions vs the composed Lean model sidecarRDS, checked against meshSpec
+  rds       end to end: real ConfigGenerator.BuildHTTPRoutes with a real XdsCache for several sidecars per case (listener
+            ports incl. 80, Sidecar resources with catch-all and port-specific egress listeners, ~ exclusions and
+            outboundTrafficPolicy, colliding names, mixed-case hostnames, ExternalName aliases, multi-host VirtualServices
+            with hosts outside the registry and short names, host:port authorities): virtual-host TABLE
+            (+ IgnorePortInHostMatching) and decisions vs the full Lean model sidecarRDSFull, checked against meshSpecF;
+            the hypotheses of sidecar_rds_correct are evaluated on every build / request and counted (cert_stats)
   gw        end to end: one or two Gateway resources on one router, real BuildHTTPRoutes -> buildGatewayHTTPRouteConfig:
-            virtual-host table (incl. collapseDuplicateRoutes, RequireTls) and decisions vs gwVHosts, checked against gwSpec
+            virtual-host table (incl. collapseDuplicateRoutes, RequireTls) and decisions vs gwVHosts, checked against gwSpec;
+            mesh-external hosts are real ServiceEntry resources (one hostname in several namespaces)
   known-*   corpus witnesses of the known findings (must keep reproducing)
 On break: harness `oracle` evaluates the property statement on the real code (Go spec vs Go interpreter), one failure per
 distinct clause and case; known-finding classes only when the finding's own deviation reproduces the real answer.
@@ -39,6 +43,10 @@ WHAT = {
         "sidecar path: when several VirtualServices list the same wildcard host, only the oldest is ever considered for a service "
         "(wildcardVirtualServiceHostIndex never overwrites); if it has no rule for this proxy the service gets the default route even "
         "though a younger VirtualService with the same host applies - unlike exact hosts, where the next applicable one is used",
+    "alias-import-decided-by-concrete-service-entry":
+        "sidecar path with a Sidecar resource: an ExternalName alias of a service is honoured iff the egress entries that imported "
+        "the CONCRETE service also match the alias hostname, not iff the Sidecar imports the ExternalName service: an alias imported "
+        "through another entry is unreachable (502 under REGISTRY_ONLY), an alias that is not imported is routed",
     "mesh-decision": "end to end (virtual-host selection by authority, then first matching route) the real sidecar route configuration "
                      "decides a request differently from the applicable VirtualService / default route",
     "alt-host-sound":
@@ -117,6 +125,39 @@ def oracle(ctx, stream, case_lines, rep):
     return None
 
 
+def cert_stats(ctx):
+    """On how many generated rds builds / requests do the hypotheses of sidecar_rds_correct hold?  The driver evaluates
+    rdsCert, certVSHosts, certRegistry per build and meshSide per request (stream name `certs-rds`, nothing is compared
+    with the implementation) and, where they hold, whether the theorem's model sidecarRDS yields the same virtual-host
+    table as the full model sidecarRDSFull that the rds stream ties to the real code."""
+    g = os.path.join(ctx.work, "rds.gen.ops")
+    if not os.path.exists(g):
+        return
+    out = os.path.join(ctx.work, "rds.certs.model")
+    rc, err = ctx.drv("certs-rds", g, out)
+    if rc != 0:
+        ctx.tie_broken("certs-rds", "the driver did not evaluate the hypotheses of sidecar_rds_correct: %s" % str(err)[-500:])
+        return
+    ops = ctx.read_lines(g)
+    cert = False
+    for op, l in zip(ops, ctx.read_lines(out)):
+        if l.startswith("cert="):
+            kv = dict(x.split("=") for x in l.split())
+            cert = kv["cert"] == "1"
+            ctx.count("thm.sidecar_rds_correct.builds")
+            ctx.count("thm.sidecar_rds_correct.builds_hyp_true", int(cert))
+            ctx.count("thm.sidecar_rds_correct.builds_certNoDrop_true", int(kv["noDrop"] == "1"))
+            ctx.count("thm.sidecar_rds_correct.builds_certVSHosts_true", int(kv["vsHosts"] == "1"))
+            ctx.count("thm.sidecar_rds_correct.builds_model_eq_full_model", int(kv["models"] == "1"))
+            if kv["models"] == "0":
+                ctx.tie_broken("certs-rds:model", "hypotheses of sidecar_rds_correct hold but its model sidecarRDS and the full "
+                               "model sidecarRDSFull (the one tied to the real code) build different virtual-host tables", {"op": op})
+        elif l.startswith("side="):
+            ctx.count("thm.sidecar_rds_correct.requests")
+            ctx.count("thm.sidecar_rds_correct.requests_meshSide_true", int(l == "side=1"))
+            ctx.count("thm.sidecar_rds_correct.requests_all_hyp_true", int(l == "side=1" and cert))
+
+
 def nontrivial(case_ops, outs):
     return any(l.startswith(("build", "req", "dom", "sel", "sortv", "msh", "rds", "rreq", "grds", "greq")) for l in case_ops)
 
@@ -128,12 +169,16 @@ def run(ctx):
                 "accepted by the REAL validation.ValidateVirtualService, registry services, 1-2 proxies (sidecar or router, TLS or not) "
                 "and listener ports, 6-11 requests per proxy built from the rule literals and near misses; vhosts: service hostnames "
                 "(incl. wildcard, prefix-related namespaces, IPs) x proxy DNS domains x ports, dedupe sequences, authority selection, "
-                "route lists for SortVHostRoutes, most-specific-host lookups; rds: a mesh of 2-7 services (prefix-related namespaces, "
-                "colliding names, shared VIPs, ExternalName alias), 0-4 VirtualServices (exact / wildcard / repeated hosts), optional "
-                "Sidecar resource with egress hosts, 1-3 sidecars served from one generator + XdsCache, 4-8 requests each addressed to "
-                "service names (FQDN, short, VIP, host:port incl. wrong port, near misses); gw: 1-2 Gateway resources (HTTP/HTTPS "
-                "servers, ns/ */ ./ qualified and wildcard hosts, httpsRedirect), 1-4 VirtualServices bound to one/both/another gateway "
-                "with match.gateways and JWT-claim keys, every route name, 5-9 requests mostly aimed at a VirtualService and its hosts; "
+                "route lists for SortVHostRoutes, most-specific-host lookups; rds: listener port 80/8000/8080/9080, a mesh of 2-7 services "
+                "(prefix-related namespaces, colliding names, shared and IPv6 VIPs, mixed-case ServiceEntry hosts, ExternalName alias "
+                "with or without its concrete service), 0-4 VirtualServices of 1-3 hosts (exact / wildcard / repeated / mixed-case / "
+                "short names / hosts outside the registry or not on the listener port), optional Sidecar resource (catch-all and "
+                "port-specific egress listener, ~ exclusions, ALLOW_ANY / REGISTRY_ONLY / egress proxy), 1-3 sidecars served from one "
+                "generator + XdsCache, 4-8 requests each addressed to service names (FQDN, short, VIP, alias, VirtualService hosts, "
+                "host:port incl. wrong port, near misses); gw: 1-2 Gateway resources (HTTP/HTTPS servers, ns/ */ ./ qualified and "
+                "wildcard hosts, httpsRedirect), registry incl. one ServiceEntry hostname in up to three namespaces, 1-4 VirtualServices "
+                "bound to one/both/another gateway with match.gateways and JWT-claim keys, every route name, 5-9 requests mostly aimed "
+                "at a VirtualService and its hosts; "
                 "distinct = hash of (ops, implementation outputs); non-trivial = at least one build/req/domain/rds op")
     ctx.assumptions = [
         "Envoy's router behaves as its v3 API documentation says (lean/IstioModel/C12/Envoy.lean; no Envoy binary in the sandbox); "
@@ -163,11 +208,12 @@ def run(ctx):
                 last = out.strip().split("\n")[-1] if out.strip() else ""
                 if rc != 0 or not last.endswith("invalid 0"):
                     ctx.tie_broken("corpus-validity:" + f, "corpus file contains a VirtualService the real validator rejects:\n" + out[-2000:])
-    ctx.diff_stream("routes", ctx.n(5000, 150000), oracle=oracle, nontrivial=nontrivial)
-    ctx.diff_stream("requests", ctx.n(6000, 200000), oracle=oracle, nontrivial=nontrivial)
-    ctx.diff_stream("vhosts", ctx.n(4000, 100000), oracle=oracle, nontrivial=nontrivial)
+    ctx.diff_stream("routes", ctx.n(3000, 150000), oracle=oracle, nontrivial=nontrivial)
+    ctx.diff_stream("requests", ctx.n(4000, 200000), oracle=oracle, nontrivial=nontrivial)
+    ctx.diff_stream("vhosts", ctx.n(2500, 100000), oracle=oracle, nontrivial=nontrivial)
     ctx.diff_stream("rds", ctx.n(1000, 25000), oracle=oracle, nontrivial=nontrivial)
-    ctx.diff_stream("gw", ctx.n(1000, 25000), oracle=oracle, nontrivial=nontrivial)
+    ctx.diff_stream("gw", ctx.n(800, 25000), oracle=oracle, nontrivial=nontrivial)
+    cert_stats(ctx)
     # witnesses of the known findings (corpus only): each must still reproduce, as KNOWN-FINDING
     ctx.diff_stream("known-requests", 0, oracle=oracle, nontrivial=nontrivial)
     ctx.diff_stream("known-rds", 0, oracle=oracle, nontrivial=nontrivial)
@@ -235,19 +281,32 @@ MANIFEST = {
                    "gateway_merge_correct (several VirtualServices merged on one gateway host, no side condition on the sort); and "
                    "sidecar_rds_correct: evaluating the composed sidecar route configuration (virtual host by authority, then first "
                    "matching route) equals the end-to-end spec (applicable VirtualService by most specific host, default route, "
-                   "passthrough) under decidable hypotheses the driver evaluates on every generated mesh. Tied to /repo on every run by "
+                   "passthrough) under decidable hypotheses (rdsCert, certVSHosts, certRegistry, meshSide). Tied to /repo on every run by "
                    "five differential streams, two of them end to end through the real BuildHTTPRoutes (sidecars with a real XdsCache, "
-                   "gateway routers)."),
+                   "gateway routers); the sidecar stream runs the FULL model sidecarRDSFull (VirtualService hosts outside the registry, "
+                   "case folding, aliases, outbound traffic policy); that the theorem's model sidecarRDS builds the same table as the full "
+                   "model wherever the hypotheses hold is checked by the driver on every such build (counted), not proved."),
     "level_note": ("Trusted: Lean kernel + {propext, Classical.choice, Quot.sound}; the hand-written models (tied by differential "
-                   "testing, ~18000 cases quick / 500000 thorough); Envoy semantics taken from documentation (Envoy.lean) and "
+                   "testing, ~11000 cases quick / 500000 thorough); Envoy semantics taken from documentation (Envoy.lean) and "
                    "cross-checked only against an independent Go interpreter; regexes opaque (Go RE2 table); hook file "
-                   "pilot/pkg/networking/core/zz_verif_c12.go. sidecar_rds_correct assumes per-mesh certificates (generated domains = "
-                   "DNS search-path names, no name claimed twice) that are checked, not proved in general; the gateway virtual-host "
-                   "table is compared with its spec by the driver, only the route merge is proved. Not modelled: retries/timeouts/"
-                   "fault/mirror/header manipulation/rewrite, delegate merge, Gateway API conversion, listener port 0 and "
-                   "mergeAllVirtualHosts, gateway-semantics branches of the sidecar path, sniffed route names, Sidecar/exportTo "
-                   "scoping. Known findings F-C12-1 (withoutHeaders pattern accepting the empty string) and F-C12-4 (destination "
-                   "port resolved against the port-restricted registry); fixed F-C12-2, -3, -5."),
+                   "pilot/pkg/networking/core/zz_verif_c12.go. sidecar_rds_correct is a theorem about the meshes that satisfy its "
+                   "hypotheses only: the driver evaluates them on every generated build / request and the evidence counts how often "
+                   "they hold (counters thm.sidecar_rds_correct.*: listener port 80, mixed-case names, VirtualService hosts outside "
+                   "the registry and dropped duplicate domains fall outside); outside them the end-to-end claim rests on the "
+                   "differential stream (full model = real code) plus the spec comparison the driver and the Go oracle run per "
+                   "request - tested, not proved. The gateway spec is MODEL-SHAPED where it merges VirtualServices: mergedSpec "
+                   "orders the rules of several VirtualServices of one host the way SortVHostRoutes does (the API text only fixes the "
+                   "order inside one VirtualService); gateway_merge_correct therefore shows model = code-derived merge, and only "
+                   "mergedSpec_single reduces it to vsSpec; the gateway virtual-host table (gwDomains) is compared by the driver, not "
+                   "proved. Also code-derived: which VirtualService hosts outside the registry get a virtual host (strayHosts: port 80, "
+                   "or the VirtualService also serves a service of the port). Not modelled: retries/timeouts/fault/mirror/header "
+                   "manipulation/rewrite, delegate merge, Gateway API conversion, DestinationRule objects (subsets are strings), "
+                   "listener port 0 / HTTP_PROXY and mergeAllVirtualHosts, gateway/ingress-semantics VirtualServices on the sidecar "
+                   "path, sniffed route names, non-HTTP ports, exportTo, the discovery server's RDS generator wrapper (BuildHTTPRoutes "
+                   "is called directly). Known findings F-C12-1 (withoutHeaders pattern accepting the empty string), F-C12-4 "
+                   "(destination port resolved against the port-restricted registry), F-C12-6 (younger VirtualService with the same "
+                   "wildcard host ignored), F-C12-9 (alias import decided by the concrete service's egress entry); fixed F-C12-2, -3, "
+                   "-5, -7, -8."),
     "technique": "Lean 4 compiler-correctness and composition theorems over exact models of the route translation and route-configuration assembly + structural, request-level and end-to-end differential correspondence with the real Go functions",
     "design_ref": "DESIGN.md section 5 C12",
 }
